@@ -2,10 +2,10 @@
     positive/Z/Q). *)
 From Coq Require Import Extraction ExtrOcamlBasic.
 From Coq Require Import List ZArith QArith Qcanon.
-From Inovesa Require Import Base.FieldKit Base.Float32 Gen.Gen_FPStencil Model.FokkerPlanck Model.Moments2.
+From Inovesa Require Import Base.FieldKit Base.Float32 Gen.Gen_FPStencil Model.FokkerPlanck Model.Moments2 Model.Moments2Fix.
 
 Extraction Language OCaml.
 
 Extraction "model_fp.ml"
   Q2Qc this fp_switch fp_table_list fp_apply_list fp_iter_list
-  smq_step smq_J.
+  smq_step smq_J smq_fix smq_rho smq_N.
